@@ -25,17 +25,21 @@ g0    manager.lock.RLock()
 g1    resource, ok := manager.resources[key]
 g2    manager.lock.RUnlock()
 g3    if ok { return resource, nil }
-g4    create() starts
+g4    create() starts        (environment input ≠ 0: it is going to panic → gp)
 g5    create() returns;  if err != nil { return nil, err }
+gp    create() panics: the closure and makeCall's store are abandoned, makeCall's deferred block runs (d0 … d3)
 g6    manager.lock.Lock()
 g7    manager.resources[key] = resource
 g8    (deferred) manager.lock.Unlock();  return resource, nil
 m2 d0 d1 d2 d3 r0                    as in SF (makeCall's store and deferred block, return)
+px    the panic leaves Do and GetResource: the leading call ends without returning
+w2    (joiner) `val, err := Do(…)`: after a panicked flight both are nil, and `val.(io.Closer)` panics with a nil
+      interface conversion — the joiner's call ends without returning, too
 ``` -/
 inductive PC
   | idle | l0 | l1 | w0 | w1 | w2 | n0 | n1 | n2 | n3
-  | g0 | g1 | g2 | g3 | g4 | g5 | g6 | g7 | g8
-  | m2 | d0 | d1 | d2 | d3 | r0
+  | g0 | g1 | g2 | g3 | g4 | g5 | gp | g6 | g7 | g8
+  | m2 | d0 | d1 | d2 | d3 | r0 | px
   deriving DecidableEq, Repr
 
 structure St where
@@ -56,6 +60,7 @@ structure St where
   tmp   : Tid → Val             -- the closure's result before it is stored in c.val
   loc   : Tid → Val             -- closure-local `resource`
   found : Tid → Bool            -- closure-local `ok`
+  pn    : Tid → Bool            -- the goroutine is unwinding a panic of create
   -- ghost
   leader  : CallId → Tid
   lret    : CallId → Bool       -- the leading call has returned
@@ -64,15 +69,16 @@ structure St where
   ncreate : Key → Nat           -- successful `create` calls per key
   inst    : Key → Val           -- the instance made by the last successful `create`
   creator : Key → Tid
+  pan     : CallId → Bool       -- create panicked in this flight (then c.val and c.err stay nil)
   rets    : List RRet
 
 def init : St :=
   { lock := none, calls := fun _ => none, wg := fun _ => 0, cval := fun _ => 0, next := 0,
     rw := none, nrd := 0, res := fun _ => none,
     pc := fun _ => .idle, key := fun _ => 0, reg := fun _ => 0, tmp := fun _ => 0, loc := fun _ => 0,
-    found := fun _ => false,
+    found := fun _ => false, pn := fun _ => false,
     leader := fun _ => 0, lret := fun _ => false, fnres := fun _ => none, ekey := fun _ => 0,
-    ncreate := fun _ => 0, inst := fun _ => 0, creator := fun _ => 0, rets := [] }
+    ncreate := fun _ => 0, inst := fun _ => 0, creator := fun _ => 0, pan := fun _ => false, rets := [] }
 
 def step (s : St) (t : Tid) (x : Nat) : Option St :=
   match s.pc t with
@@ -84,9 +90,11 @@ def step (s : St) (t : Tid) (x : Nat) : Option St :=
     | none => some { s with pc := upd s.pc t .n0 }
   | .w0 => some { s with lock := none, pc := upd s.pc t .w1 }
   | .w1 => if s.wg (s.reg t) = 0 then some { s with pc := upd s.pc t .w2 } else none
-  | .w2 => some { s with pc := upd s.pc t .idle,
-                         rets := { tid := t, key := s.key t, exec := s.reg t, val := s.cval (s.reg t) } :: s.rets }
+  | .w2 => if s.pan (s.reg t) = true then some { s with pc := upd s.pc t .idle }
+           else some { s with pc := upd s.pc t .idle,
+                              rets := { tid := t, key := s.key t, exec := s.reg t, val := s.cval (s.reg t) } :: s.rets }
   | .n0 => some { s with reg := upd s.reg t s.next, next := s.next + 1, pc := upd s.pc t .n1,
+                         pn := upd s.pn t false, pan := upd s.pan s.next false,
                          wg := upd s.wg s.next 0, cval := upd s.cval s.next 0,
                          fnres := upd s.fnres s.next none, lret := upd s.lret s.next false,
                          leader := upd s.leader s.next t, ekey := upd s.ekey s.next (s.key t) }
@@ -100,7 +108,9 @@ def step (s : St) (t : Tid) (x : Nat) : Option St :=
   | .g3 => if s.found t then
              some { s with tmp := upd s.tmp t (s.loc t), fnres := upd s.fnres (s.reg t) (some (s.loc t)), pc := upd s.pc t .m2 }
            else some { s with pc := upd s.pc t .g4 }
-  | .g4 => some { s with pc := upd s.pc t .g5 }
+  | .g4 => if x = 0 then some { s with pc := upd s.pc t .g5 } else some { s with pc := upd s.pc t .gp }
+  | .gp => some { s with pn := upd s.pn t true, pan := upd s.pan (s.reg t) true, fnres := upd s.fnres (s.reg t) (some 0),
+                         pc := upd s.pc t .d0 }
   | .g5 => if x = 0 then
              some { s with tmp := upd s.tmp t 0, fnres := upd s.fnres (s.reg t) (some 0), pc := upd s.pc t .m2 }
            else some { s with loc := upd s.loc t x, ncreate := upd s.ncreate (s.key t) (s.ncreate (s.key t) + 1),
@@ -113,9 +123,18 @@ def step (s : St) (t : Tid) (x : Nat) : Option St :=
   | .d0 => if s.lock = none then some { s with lock := some t, pc := upd s.pc t .d1 } else none
   | .d1 => some { s with calls := upd s.calls (s.key t) none, pc := upd s.pc t .d2 }
   | .d2 => some { s with lock := none, pc := upd s.pc t .d3 }
-  | .d3 => some { s with wg := upd s.wg (s.reg t) (s.wg (s.reg t) - 1), pc := upd s.pc t .r0 }
+  | .d3 => if s.pn t = true then some { s with wg := upd s.wg (s.reg t) (s.wg (s.reg t) - 1), pc := upd s.pc t .px }
+           else some { s with wg := upd s.wg (s.reg t) (s.wg (s.reg t) - 1), pc := upd s.pc t .r0 }
   | .r0 => some { s with pc := upd s.pc t .idle, lret := upd s.lret (s.reg t) true,
                          rets := { tid := t, key := s.key t, exec := s.reg t, val := s.cval (s.reg t) } :: s.rets }
+  | .px => some { s with pc := upd s.pc t .idle, pn := upd s.pn t false, lret := upd s.lret (s.reg t) true }
+
+/-- `ResourceManager.Inject(key, resource)`: `lock.Lock(); resources[key] = resource; lock.Unlock()` — one atomic
+action with respect to the RW mutex (enabled iff no reader and no writer).  NOT part of `Reach`: the theorems are
+about managers whose map is only written by `GetResource` (Inject after a create trivially hands a second instance
+out, see the example in Props.lean); the correspondence runs use it to pre-register resources before any call. -/
+def inject (s : St) (k : Key) (v : Val) : Option St :=
+  if s.rw = none ∧ s.nrd = 0 then some { s with res := upd s.res k (some v) } else none
 
 /-- the statement of `GetResource`'s closure each `g`/`m` row stands for (tied in `Tie.lean`). -/
 def stmt : PC → String
@@ -134,9 +153,9 @@ def succ : PC → List PC
   | .idle => [.l0] | .l0 => [.l1] | .l1 => [.w0, .n0]
   | .w0 => [.w1] | .w1 => [.w2] | .w2 => [.idle]
   | .n0 => [.n1] | .n1 => [.n2] | .n2 => [.n3] | .n3 => [.g0]
-  | .g0 => [.g1] | .g1 => [.g2] | .g2 => [.g3] | .g3 => [.m2, .g4] | .g4 => [.g5] | .g5 => [.m2, .g6]
+  | .g0 => [.g1] | .g1 => [.g2] | .g2 => [.g3] | .g3 => [.m2, .g4] | .g4 => [.g5, .gp] | .g5 => [.m2, .g6] | .gp => [.d0]
   | .g6 => [.g7] | .g7 => [.g8] | .g8 => [.m2] | .m2 => [.d0]
-  | .d0 => [.d1] | .d1 => [.d2] | .d2 => [.d3] | .d3 => [.r0] | .r0 => [.idle]
+  | .d0 => [.d1] | .d1 => [.d2] | .d2 => [.d3] | .d3 => [.r0, .px] | .r0 => [.idle] | .px => [.idle]
 
 def run (s : St) : List (Tid × Nat) → Option St
   | [] => some s
